@@ -1,16 +1,424 @@
-(** Property C14 -- property theorems (work in progress: refutations of the two known defects first). *)
-From Coq Require Import List NArith Arith Bool.
-From XV Require Import C14.Spec14 C14.Hist14 C14.Model14.
+(** Property C14 -- Live lists, iterators, walkers and ranges stay consistent under mutation.
+    Only the property theorems: each is closed by [exact] of a lemma of Proofs14*.v (or by [vm_compute] on a
+    witness for the refutations) and followed by [Print Assumptions].
+    Spec14.v  = DOM Level 2 Traversal-Range on a rose tree (mentions nothing of the C++),
+    Model14.v = the C++ (DOMNodeIteratorImpl, DOMTreeWalkerImpl, DOMDeepNodeListImpl, DOMRangeImpl and the
+                notification loops), parameterised by [fixes]: the code as it is / as repaired by fixes/C14-*.patch,
+    Hist14.v  = histories and the specification interpreter [sp_run]; Model14.m_run runs the same histories.
+
+    State of the five defects found (DESIGN.md section 5 / known-findings.d/C14.json):
+      F19 (fresh iterator + removal crashes), F20 (insertData start offset), F26 (TreeWalker::previousNode depth)
+          are repaired in /repo (fix: commits); the theorems are about the repaired code, the *_refuted theorems
+          record what the old code did;
+      F27 (TreeWalker: filter REJECT on a node hidden by whatToShow prunes) and F28 (splitText can leave start after
+          end) are KNOWN FINDINGS: the pinned tests encode the old behaviour, so the code keeps it.  [fx_current] is the
+          code as it now is; for these two the positive theorems are GUARDED (they exclude exactly the defect class)
+          and the *_refuted theorems exhibit the witnesses.  [fx_repaired] (all five repaired) is what the
+          specification interpreter [sp_run] describes.
+
+    PARTIAL items (said here once, and in checks/meta/C14.json):
+    - the theorems about NodeIterator stepping, the tag-name list and the removal rule of ranges take the pointer
+      walks of the code (nextNode(node,true), previousNode(node), nextMatchingElementAfter, isAncestorOf) as
+      hypotheses "one step in the document order of the root's subtree" / "membership in the subtree".  They are
+      decidable: Cert14.v gives executable checks, the *_certified theorems hold outright wherever a check is true,
+      and the extracted checks are evaluated on the states of the correspondence's histories (0 failures required);
+    - T14_range_valid_partial: validity is proved for the operations that do not restructure the tree (boundary
+      setters, collapse, character-data edits inside one container); for node insertion/removal/splitText it is
+      checked on every state of the correspondence by [range_ok] (extracted) and on the library's DOM directly;
+    - T14_walker_partial: the accept function (whatToShow skip, reject/skip verdicts) is proved equal to the
+      specification's outside the F27 class; the seven moves are compared with [sp_w_target_at] by correspondence only;
+    - the iterator's removal fix-up (removeNode) is compared with [sp_it_remove] by correspondence only. *)
+From Coq Require Import List NArith Arith Bool Lia.
+From XV Require Import C14.Spec14 C14.Hist14 C14.Model14 C14.Cert14 C14.Proofs14a C14.Proofs14b C14.Proofs14c C14.Proofs14d.
 Import ListNotations.
 
 Definition fx_as_is := {| fx_iter_fresh := false; fx_ins_text := false; fx_wprev := false; fx_wshow := false; fx_split := false |}.
 Definition fx_repaired := {| fx_iter_fresh := true; fx_ins_text := true; fx_wprev := true; fx_wshow := true; fx_split := true |}.
+Definition fx_current := {| fx_iter_fresh := true; fx_ins_text := true; fx_wprev := true; fx_wshow := false; fx_split := false |}.
 Definition tab_all : list N := [1;1;1;1;1;1;1]%N.
+Definition some_invalid (l : list answer) : bool :=
+  existsb (fun a : answer => existsb (fun o => match o with Some (_, false) => true | _ => false end) (snd a)) l.
 
-(** F19: with the code as it is, removing a node while a never-stepped NodeIterator is registered crashes *)
+(* ============================================================================================================ *)
+(** * NodeIterator *)
+
+(** T14_iter_position (stepping part): for an iterator whose current node lies in the document order of its root,
+    nextNode()/previousNode() of the code return exactly what the specification returns for the abstract position
+    (reference = fCurrentNode, after = fForward) -- the first accepted node behind / the last accepted node in front
+    of the gap in the CURRENT filtered document order -- and leave the position the specification prescribes. *)
+Theorem T14_iter_position_next_partial : forall tab f it0,
+  let root := mi_root it0 in let order := ids (it_order f root) in
+  NoDup order -> nth_error order 0 = Some root -> length order <= m_fuel f ->
+  (forall k c, nth_error order k = Some c -> mi_next_raw f root (Some c) true = nth_error order (S k)) ->
+  (forall s, In s (it_order f root) -> it_accepts tab (mi_what it0) (mi_usef it0) s = mi_accept tab f it0 (tid s)) ->
+  forall cur fwd, (forall c, cur = Some c -> In c order) ->
+  sp_it_next tab f (abs_it (mi_set it0 cur fwd)) =
+  (fst (mi_next tab f (mi_set it0 cur fwd)), abs_it (snd (mi_next tab f (mi_set it0 cur fwd)))).
+Proof. intros tab f it0 root order. exact (next_is_spec tab f it0). Qed.
+Print Assumptions T14_iter_position_next_partial.
+
+Theorem T14_iter_position_prev_partial : forall tab f it0,
+  let root := mi_root it0 in let order := ids (it_order f root) in
+  NoDup order -> nth_error order 0 = Some root -> length order <= m_fuel f ->
+  (forall k c, nth_error order (S k) = Some c -> mi_prev_raw f root c = nth_error order k) ->
+  mi_prev_raw f root root = None ->
+  (forall s, In s (it_order f root) -> it_accepts tab (mi_what it0) (mi_usef it0) s = mi_accept tab f it0 (tid s)) ->
+  forall cur fwd, (forall c, cur = Some c -> In c order) ->
+  sp_it_prev tab f (abs_it (mi_set it0 cur fwd)) =
+  (fst (mi_prev tab f (mi_set it0 cur fwd)), abs_it (snd (mi_prev tab f (mi_set it0 cur fwd)))).
+Proof. intros tab f it0 root order. exact (prev_is_spec tab f it0). Qed.
+Print Assumptions T14_iter_position_prev_partial.
+
+(** what the specification's step means: the node returned by nextNode is accepted, lies behind the gap, and no
+    accepted node lies between the gap and it (it is the neighbour in the filtered order) *)
+Theorem T14_spec_next_is_neighbour : forall tab f it r it',
+  sp_it_next tab f it = (Some r, it') ->
+  let order := it_order f (si_root it) in
+  let g := gap_of (ids order) (si_ref it) (si_after it) in
+  exists pre s post, skipn g order = pre ++ s :: post /\ tid s = r /\
+    it_accepts tab (si_what it) (si_usef it) s = true /\
+    (forall x, In x pre -> it_accepts tab (si_what it) (si_usef it) x = false) /\
+    si_ref it' = Some r /\ si_after it' = true.
+Proof.
+  intros tab f it r it' H order g. unfold sp_it_next in H. fold order in H. fold g in H.
+  destruct (find (it_accepts tab (si_what it) (si_usef it)) (skipn g order)) as [s|] eqn:E; [|discriminate].
+  injection H as Hr Hit. subst it'. cbn [si_ref si_after].
+  revert E. generalize (skipn g order). intros l. induction l as [|x l IH]; intros E; [discriminate|].
+  cbn in E. destruct (it_accepts tab (si_what it) (si_usef it) x) eqn:Ex.
+  - injection E as ->. exists [], s, l. repeat split; try assumption; try (rewrite Hr; reflexivity). intros y [].
+  - destruct (IH E) as [pre [s' [post [H1 [H2 [H3 [H4 [H5 H6]]]]]]]].
+    exists (x :: pre), s', post. rewrite H1. repeat split; try assumption.
+    intros y [<-|Hy]; [exact Ex|apply H4; exact Hy].
+Qed.
+Print Assumptions T14_spec_next_is_neighbour.
+
+(** DEFECT F19 (code as it is): removing a node while a never-stepped NodeIterator is registered kills the
+    process; repaired (fixes/C14-iter-fresh.patch) the history runs to its end *)
 Theorem T14_iter_fresh_refuted :
   exists h, snd (m_run fx_as_is tab_all h) = true /\ snd (m_run fx_repaired tab_all h) = false.
-Proof.
-  exists [ONewE [98%N]; OIns 1 2 None; OIt 1 65535%N false; ORm 2]. vm_compute. split; reflexivity.
-Qed.
+Proof. exists [ONewE [98%N]; OIns 1 2 None; OIt 1 65535%N false; ORm 2]. vm_compute. split; reflexivity. Qed.
 Print Assumptions T14_iter_fresh_refuted.
+
+(* ============================================================================================================ *)
+(** * TreeWalker *)
+
+(** the repaired acceptNode is the specification's verdict: whatToShow skips and takes precedence over the filter;
+    otherwise the filter's accept / reject / skip *)
+Theorem T14_walker_accept_partial : forall tab f w s,
+  find_node f (tid s) = Some s ->
+  mw_accept fx_repaired tab f w (tid s) = view_verdict tab (mw_what w) (mw_usef w) s.
+Proof.
+  intros tab f w s Hs. unfold mw_accept, view_verdict, m_shown, m_kind, m_filter. rewrite Hs. cbn [fx_wshow fx_repaired].
+  destruct (mw_usef w); destruct (shown (mw_what w) (tkind s)); reflexivity.
+Qed.
+Print Assumptions T14_walker_accept_partial.
+
+(** the code as it is now (F27 open): the same, except on nodes that whatToShow hides AND the filter rejects *)
+Theorem T14_walker_accept_guarded : forall tab f w s,
+  find_node f (tid s) = Some s ->
+  (shown (mw_what w) (tkind s) = true \/ mw_usef w = false \/ filter_verdict tab s <> VReject) ->
+  mw_accept fx_current tab f w (tid s) = view_verdict tab (mw_what w) (mw_usef w) s.
+Proof.
+  intros tab f w s Hs G. unfold mw_accept, view_verdict, m_shown, m_kind, m_filter. rewrite Hs. cbn [fx_wshow fx_current].
+  destruct (mw_usef w); destruct (shown (mw_what w) (tkind s)); try reflexivity.
+  destruct (filter_verdict tab s); try reflexivity.
+  exfalso. destruct G as [G|[G|G]]; [discriminate G|discriminate G|apply G; reflexivity].
+Qed.
+Print Assumptions T14_walker_accept_guarded.
+
+(** DEFECT F26 (code as it is): previousNode skips the deepest descendants *)
+Theorem T14_walker_prev_refuted :
+  exists h, fst (m_run fx_as_is tab_all h) <> sp_run tab_all h /\ fst (m_run fx_repaired tab_all h) = sp_run tab_all h.
+Proof.
+  exists [ONewE [98%N]; OIns 1 2 None; ONewE [99%N]; OIns 2 3 None; ONewE [100%N]; OIns 3 4 None; ONewE [101%N]; OIns 1 5 None;
+          OTw 1 65535%N false; OWSet 0 5; OW WPrev 0].
+  split; [vm_compute; discriminate|vm_compute; reflexivity].
+Qed.
+Print Assumptions T14_walker_prev_refuted.
+
+(** KNOWN FINDING F27 (code as it is now): a filter REJECT on a node hidden by whatToShow prunes its subtree *)
+Theorem T14_walker_show_refuted :
+  exists h, fst (m_run fx_current [1;2;1;1;1;1;1]%N h) <> sp_run [1;2;1;1;1;1;1]%N h /\
+            fst (m_run fx_repaired [1;2;1;1;1;1;1]%N h) = sp_run [1;2;1;1;1;1;1]%N h.
+Proof.
+  exists [ONewE [98%N]; OIns 1 2 None; ONewT [120%N]; OIns 2 3 None; OTw 1 4%N true; OW WNext 0].
+  split; [vm_compute; discriminate|vm_compute; reflexivity].
+Qed.
+Print Assumptions T14_walker_show_refuted.
+
+(* ============================================================================================================ *)
+(** * getElementsByTagName *)
+
+(** T14_deeplist: whatever the list object cached before -- provided the cache is either stale (its change count
+    differs from the document's) or describes the current tree -- item(i) is the i-th and getLength the number of
+    matching elements below the root in current document order; the new cache again describes the current tree. *)
+Theorem T14_deeplist_item_partial : forall f root name,
+  (forall k c, nth_error (root :: sp_tag_list f root name) k = Some c ->
+     md_next_match f root name (m_fuel f) (Some c) = nth_error (root :: sp_tag_list f root name) (S k)) ->
+  length (sp_tag_list f root name) < m_fuel f ->
+  forall changes l i, cache_ok f root name changes l ->
+  fst (md_cache_item f changes l (S i)) = nth_error (sp_tag_list f root name) i /\
+  cache_ok f root name changes (snd (md_cache_item f changes l (S i))) /\
+  md_changes (snd (md_cache_item f changes l (S i))) = changes.
+Proof. intros f root name Hn Hf. exact (cache_item_correct f root name Hn Hf). Qed.
+Print Assumptions T14_deeplist_item_partial.
+
+Theorem T14_deeplist_length_partial : forall f root name,
+  (forall k c, nth_error (root :: sp_tag_list f root name) k = Some c ->
+     md_next_match f root name (m_fuel f) (Some c) = nth_error (root :: sp_tag_list f root name) (S k)) ->
+  length (sp_tag_list f root name) < m_fuel f ->
+  forall changes l, cache_ok f root name changes l ->
+  fst (md_length f changes l) = length (sp_tag_list f root name) /\
+  cache_ok f root name changes (snd (md_length f changes l)).
+Proof. intros f root name Hn Hf. exact (length_correct f root name Hn Hf). Qed.
+Print Assumptions T14_deeplist_length_partial.
+
+(** every mutation bumps the counter, hence every cache is stale -- and therefore [cache_ok] -- for ANY new tree;
+    a fresh list (fChanges = 0) is [cache_ok] because the counter of a document with a root element is >= 1 *)
+Theorem T14_deeplist_cache_survives_mutation : forall f' root name changes l,
+  md_root l = root -> md_name l = name -> md_changes l <= changes -> cache_ok f' root name (S changes) l.
+Proof. exact cache_ok_bump. Qed.
+Print Assumptions T14_deeplist_cache_survives_mutation.
+
+Theorem T14_deeplist_fresh : forall f root name changes, changes <> 0 ->
+  cache_ok f root name changes {| md_root := root; md_name := name; md_changes := 0; md_cur := None; md_idx := 0 |}.
+Proof. exact cache_ok_fresh. Qed.
+Print Assumptions T14_deeplist_fresh.
+
+(** T14_changed_everywhere (model side): the two tree-restructuring code paths bump the counter *)
+Theorem T14_changed_everywhere : forall s x s' p r n,
+  (m_remove_child s x = Some s' -> ms_changes s' = S (ms_changes s)) /\
+  ms_changes (m_attach s p r n) = S (ms_changes s).
+Proof.
+  intros s x s' p r n. split; [|reflexivity].
+  unfold m_remove_child. destruct (notify_its (ms_fx s) (ms_f s) x (ms_its s)); [|discriminate].
+  intros H. injection H as <-. reflexivity.
+Qed.
+Print Assumptions T14_changed_everywhere.
+
+(* ============================================================================================================ *)
+(** * Range *)
+
+(** T14_range_moves: the repaired fix-ups are the rules of DOM Range 2.12 on both boundary points *)
+Theorem T14_range_moves_insert_text : forall f x off cnt r, m_is_cd f x = true ->
+  to_range (mr_upd_ins_text fx_repaired f x off cnt r) = r_map (bp_ins_text x off cnt) (to_range r).
+Proof. intros. apply ins_text_is_spec; [reflexivity|assumption]. Qed.
+Print Assumptions T14_range_moves_insert_text.
+
+Theorem T14_range_moves_delete_text : forall f x off cnt r, m_is_cd f x = true ->
+  to_range (mr_upd_del_text f x off cnt r) = r_map (bp_del_text x off cnt) (to_range r).
+Proof. exact del_text_is_spec. Qed.
+Print Assumptions T14_range_moves_delete_text.
+
+Theorem T14_range_moves_set_text : forall f x r, m_is_cd f x = true ->
+  to_range (mr_upd_set_text f x r) = r_map (bp_set_text x) (to_range r).
+Proof. exact set_text_is_spec. Qed.
+Print Assumptions T14_range_moves_set_text.
+
+Theorem T14_range_moves_insert_node : forall f n p r, m_parent f n = Some p ->
+  to_range (mr_upd_ins_node f n r) = r_map (bp_ins_node p (m_index_of f n p)) (to_range r).
+Proof. exact ins_node_is_spec. Qed.
+Print Assumptions T14_range_moves_insert_node.
+
+Theorem T14_range_moves_split : forall f x nw off p r, m_is_cd f x = true -> m_parent f x = Some p ->
+  nw <> p -> x <> p ->
+  to_range (mr_upd_split fx_repaired f x nw off r) =
+  r_map (bp_split_parent p (m_index_of f x p)) (r_map (bp_split x nw off) (to_range r)).
+Proof. intros. apply split_is_spec; [reflexivity|assumption..]. Qed.
+Print Assumptions T14_range_moves_split.
+
+(** the code as it is now (F28 open): the split rule holds unless a boundary point sits in the parent directly
+    behind the split node *)
+Theorem T14_range_moves_split_guarded : forall f x nw off p i r, m_is_cd f x = true ->
+  r_s (r_map (bp_split x nw off) (to_range r)) <> (p, S i) ->
+  r_e (r_map (bp_split x nw off) (to_range r)) <> (p, S i) ->
+  to_range (mr_upd_split fx_current f x nw off r) = r_map (bp_split_parent p i) (r_map (bp_split x nw off) (to_range r)).
+Proof. intros. apply split_is_spec_guarded; [reflexivity|assumption..]. Qed.
+Print Assumptions T14_range_moves_split_guarded.
+
+Theorem T14_range_moves_remove_node_partial : forall f x p r sub,
+  m_parent f x = Some p ->
+  (forall c, m_is_anc f (m_fuel f) x (Some c) = memb c sub) -> memb p sub = false ->
+  to_range (mr_upd_del_node f x r) = r_map (bp_del_node p (m_index_of f x p) sub) (to_range r).
+Proof. exact del_node_is_spec. Qed.
+Print Assumptions T14_range_moves_remove_node_partial.
+
+(** DEFECT F20 (code as it is): [5,8] in a text node, insertData(2,"ab") gives [2,10]; 2.12.1 demands [7,10] *)
+Theorem T14_insert_text_refuted :
+  exists f x off cnt r, m_is_cd f x = true /\
+    to_range (mr_upd_ins_text fx_as_is f x off cnt r) <> r_map (bp_ins_text x off cnt) (to_range r) /\
+    to_range (mr_upd_ins_text fx_as_is f x off cnt r) = {| r_s := (3, 2); r_e := (3, 10) |} /\
+    r_map (bp_ins_text x off cnt) (to_range r) = {| r_s := (3, 7); r_e := (3, 10) |}.
+Proof.
+  exists [Node 0 KDoc [] [Node 1 KElem [97%N] [Node 3 KText [104;101;108;108;111;119;111;114;108;100]%N []]]], 3, 2, 2,
+         {| mr_sc := 3; mr_so := 5; mr_ec := 3; mr_eo := 8 |}.
+  vm_compute. repeat split; try reflexivity. discriminate.
+Qed.
+Print Assumptions T14_insert_text_refuted.
+
+(** T14_range_valid (partial): operations that keep the tree's structure keep every valid range valid *)
+Theorem T14_range_valid_set_start : forall m r b, range_ok m r = true -> bp_ok m b = true ->
+  (exists p, bp_pos m b = Some p) -> range_ok m (sp_set_start m r b) = true.
+Proof. exact set_start_valid. Qed.
+Print Assumptions T14_range_valid_set_start.
+Theorem T14_range_valid_set_end : forall m r b, range_ok m r = true -> bp_ok m b = true ->
+  (exists p, bp_pos m b = Some p) -> range_ok m (sp_set_end m r b) = true.
+Proof. exact set_end_valid. Qed.
+Print Assumptions T14_range_valid_set_end.
+Theorem T14_range_valid_collapse : forall m r toStart, range_ok m r = true ->
+  range_ok m (if toStart : bool then {| r_s := r_s r; r_e := r_s r |} else {| r_s := r_e r; r_e := r_e r |}) = true.
+Proof. exact collapse_valid. Qed.
+Print Assumptions T14_range_valid_collapse.
+
+(** inside one character-data container: after insertData / deleteData the offsets are still ordered and within the
+    new length -- for the repaired code and (second theorem) also for the code as it is, which is why F20 is a
+    violation of "moves as DOM Range specifies" but not of validity *)
+Theorem T14_range_valid_text_insert : forall off cnt so eo len, so <= eo -> eo <= len -> off <= len ->
+  let g := fun o => if off <? o then o + cnt else o in g so <= g eo /\ g eo <= len + cnt.
+Proof. exact ins_off_valid. Qed.
+Print Assumptions T14_range_valid_text_insert.
+Theorem T14_range_valid_text_insert_as_is : forall off cnt so eo len, so <= eo -> eo <= len -> off <= len ->
+  (if off <? so then off else so) <= (if off <? eo then eo + cnt else eo) /\ (if off <? eo then eo + cnt else eo) <= len + cnt.
+Proof. exact ins_off_valid_as_is. Qed.
+Print Assumptions T14_range_valid_text_insert_as_is.
+Theorem T14_range_valid_text_delete : forall off cnt so eo len, so <= eo -> eo <= len -> off + cnt <= len ->
+  m_del_off off cnt so <= m_del_off off cnt eo /\ m_del_off off cnt eo <= len - cnt.
+Proof. exact del_off_valid. Qed.
+Print Assumptions T14_range_valid_text_delete.
+
+(** KNOWN FINDING F28 (code as it is now): splitText leaves a live range with its start behind its end *)
+Theorem T14_split_invalid_refuted :
+  exists h, some_invalid (fst (m_run fx_current tab_all h)) = true /\ some_invalid (fst (m_run fx_repaired tab_all h)) = false
+            /\ fst (m_run fx_repaired tab_all h) = sp_run tab_all h.
+Proof.
+  exists [ONewT [97;98;99;100;101;102]%N; OIns 1 2 None; ORg; ORSetS 0 2 5; ORSetE 0 1 1; OSplit 2 3].
+  vm_compute. repeat split; reflexivity.
+Qed.
+Print Assumptions T14_split_invalid_refuted.
+
+Definition ex_f_cert : forest :=
+  [Node 0 KDoc [] [Node 1 KElem [97%N] [Node 2 KElem [98%N] [Node 3 KText [104;105]%N []; Node 4 KElem [99%N] []];
+                                        Node 5 KComment [120%N] []; Node 6 KElem [98%N] []]]].
+
+(* ============================================================================================================ *)
+(** * Certified states: the navigation hypotheses above are decidable; Cert14.v gives executable checks, and the
+      theorems hold outright in every state where the check evaluates to true.  The extracted checks are evaluated
+      by the correspondence on every iterator step, list query and node removal of every history ([m_run_certs]). *)
+
+(** T14_iter_position on certified states: model step = specification step, for nextNode and previousNode *)
+Theorem T14_iter_position_certified : forall tab f it, iter_cert tab f it = true ->
+  sp_it_next tab f (abs_it it) = (fst (mi_next tab f it), abs_it (snd (mi_next tab f it))) /\
+  sp_it_prev tab f (abs_it it) = (fst (mi_prev tab f it), abs_it (snd (mi_prev tab f it))).
+Proof. exact iter_cert_sound. Qed.
+Print Assumptions T14_iter_position_certified.
+
+(** ... and never a removed node: whatever nextNode / previousNode return is a node of the CURRENT document order of the
+    iterator root's subtree *)
+Theorem T14_iter_never_removed_certified : forall tab f it r, iter_cert tab f it = true ->
+  (fst (mi_next tab f it) = Some r -> In r (ids (it_order f (mi_root it)))) /\
+  (fst (mi_prev tab f it) = Some r -> In r (ids (it_order f (mi_root it)))).
+Proof. exact iter_never_removed. Qed.
+Print Assumptions T14_iter_never_removed_certified.
+
+(** T14_deeplist on certified states *)
+Theorem T14_deeplist_certified : forall f root name, dl_cert f root name = true ->
+  forall changes l, cache_ok f root name changes l ->
+  (forall i, fst (md_cache_item f changes l (S i)) = nth_error (sp_tag_list f root name) i /\
+             cache_ok f root name changes (snd (md_cache_item f changes l (S i)))) /\
+  fst (md_length f changes l) = length (sp_tag_list f root name) /\
+  cache_ok f root name changes (snd (md_length f changes l)).
+Proof. exact dl_cert_sound. Qed.
+Print Assumptions T14_deeplist_certified.
+
+(** T14_range_moves, removal rule, on certified states *)
+Theorem T14_range_moves_remove_node_certified : forall f x p r, anc_cert f x = true -> m_parent f x = Some p ->
+  (forall c, In c [mr_sc r; mr_ec r] -> In c (ids (fnodes f))) ->
+  to_range (mr_upd_del_node f x r) = r_map (bp_del_node p (m_index_of f x p) (sub_ids f x)) (to_range r).
+Proof. exact anc_cert_sound. Qed.
+Print Assumptions T14_range_moves_remove_node_certified.
+
+Example T14_certs_hold_on_example :
+  iter_cert [1;2;3;1;1;1;2]%N ex_f_cert {| mi_root := 1; mi_what := 5%N; mi_usef := true; mi_cur := Some 3; mi_fwd := false |} = true /\
+  dl_cert ex_f_cert 1 [98%N] = true /\ anc_cert ex_f_cert 2 = true /\
+  m_run_certs fx_repaired tab_all [ONewE [98%N]; OIns 1 2 None; OIt 1 65535%N false; OItNext 0; ODl 0 [98%N]; ODLen 0; ORm 2; OItPrev 0] = (8, 0).
+Proof. vm_compute. repeat split; reflexivity. Qed.
+
+(* ============================================================================================================ *)
+(** * Non-vacuity: the hypotheses of the conditional theorems hold on a concrete document
+      a[ b[ "hi", c ], <!--x-->, b ]    (ids: a=1 b=2 "hi"=3 c=4 comment=5 b=6) *)
+Definition ex_f : forest :=
+  [Node 0 KDoc [] [Node 1 KElem [97%N] [Node 2 KElem [98%N] [Node 3 KText [104;105]%N []; Node 4 KElem [99%N] []];
+                                        Node 5 KComment [120%N] []; Node 6 KElem [98%N] []]]].
+Definition ex_it := {| mi_root := 1; mi_what := 65535%N; mi_usef := true; mi_cur := None; mi_fwd := true |}.
+
+Fixpoint below (n : nat) : list nat := match n with O => [] | S k => below k ++ [k] end.
+Lemma below_all : forall n k, k < n -> In k (below n).
+Proof. induction n; intros k H; [lia|]. cbn. apply in_or_app. destruct (Nat.eq_dec k n); [right; left; auto|left; apply IHn; lia]. Qed.
+
+Example T14_iter_hyps_satisfiable :
+  let order := ids (it_order ex_f 1) in
+  order = [1; 2; 3; 4; 5; 6] /\ NoDup order /\ length order <= m_fuel ex_f /\
+  (forall k c, nth_error order k = Some c -> mi_next_raw ex_f 1 (Some c) true = nth_error order (S k)) /\
+  (forall k c, nth_error order (S k) = Some c -> mi_prev_raw ex_f 1 c = nth_error order k) /\
+  mi_prev_raw ex_f 1 1 = None /\
+  (forall s, In s (it_order ex_f 1) -> it_accepts [1;2;3;1;1;1;2]%N 65535%N true s = mi_accept [1;2;3;1;1;1;2]%N ex_f ex_it (tid s)).
+Proof.
+  cbv zeta. split; [reflexivity|]. split; [|split; [vm_compute; lia|]].
+  - change (ids (it_order ex_f 1)) with [1;2;3;4;5;6]. repeat constructor; cbn; intuition discriminate.
+  - change (ids (it_order ex_f 1)) with [1;2;3;4;5;6]. split; [|split; [|split]].
+    + intros k c H. do 6 (destruct k as [|k]; [cbn in H; injection H as <-; reflexivity|]). destruct k; discriminate.
+    + intros k c H. do 5 (destruct k as [|k]; [cbn in H; injection H as <-; reflexivity|]). destruct k; discriminate.
+    + reflexivity.
+    + intros s Hs. vm_compute in Hs. repeat (destruct Hs as [<-|Hs]; [reflexivity|]). destruct Hs.
+Qed.
+
+Example T14_deeplist_hyps_satisfiable :
+  sp_tag_list ex_f 1 [98%N] = [2; 6] /\
+  (forall k c, nth_error (1 :: sp_tag_list ex_f 1 [98%N]) k = Some c ->
+     md_next_match ex_f 1 [98%N] (m_fuel ex_f) (Some c) = nth_error (1 :: sp_tag_list ex_f 1 [98%N]) (S k)) /\
+  length (sp_tag_list ex_f 1 [98%N]) < m_fuel ex_f.
+Proof.
+  split; [reflexivity|]. split; [|vm_compute; lia].
+  change (sp_tag_list ex_f 1 [98%N]) with [2; 6].
+  intros k c H. do 3 (destruct k as [|k]; [cbn in H; injection H as <-; reflexivity|]). destruct k; discriminate.
+Qed.
+
+Example T14_range_moves_hyps_satisfiable :
+  m_parent ex_f 2 = Some 1 /\ (forall c, m_is_anc ex_f (m_fuel ex_f) 2 (Some c) = memb c (sub_ids ex_f 2)) /\
+  memb 1 (sub_ids ex_f 2) = false /\ m_is_cd ex_f 3 = true.
+Proof.
+  split; [reflexivity|]. split; [|split; reflexivity].
+  intros c. do 8 (destruct c as [|c]; [reflexivity|]).
+  (* ids that do not occur: the climb finds no parent, the subtree does not contain them *)
+  reflexivity.
+Qed.
+
+(** the repaired model and the specification interpreter agree on a history that exercises all four view kinds
+    across mutations (a finite sample, NOT the general claim -- that is the correspondence's job) *)
+Example T14_history_sample :
+  let h := [ONewE [98%N]; OIns 1 2 None; ONewT [104;105]%N; OIns 2 3 None; ONewE [99%N]; OIns 2 4 None;
+            OIt 1 65535%N false; OItNext 0; OItNext 0; OItNext 0; OTw 1 1%N true; OW WNext 0; ODl 0 [98%N]; ODLen 0;
+            ORg; ORSetS 0 3 1; ORSetE 0 2 2; ORm 2; OItPrev 0; OItNext 0; ODLen 0; ODItem 0 0; OW WPrev 0;
+            OIns 1 2 None; OIData 3 0 [120;121]%N; OSplit 3 2; ODItem 0 0; OItNext 0; OW WNext 0] in
+  fst (m_run fx_repaired [1;2;3;1;1;1;2]%N h) = sp_run [1;2;3;1;1;1;2]%N h /\ snd (m_run fx_repaired [1;2;3;1;1;1;2]%N h) = false
+  /\ some_invalid (sp_run [1;2;3;1;1;1;2]%N h) = false.
+Proof. vm_compute. repeat split; reflexivity. Qed.
+
+(** TreeWalker moves: a FINITE SAMPLE (not the general claim): on the example document, for every filter table over
+    {accept, reject, skip} for the names b, c, #text, #comment, for 4 whatToShow masks, with and without filter, every
+    one of the seven moves from every node the walker can stand on (the root, or a node of its view) gives the same
+    target in the repaired model and in the specification *)
+Definition walker_sample_ok : bool :=
+  let moves := [WParent; WFirst; WLast; WPrevSib; WNextSib; WNext; WPrev] in
+  let vs := [1; 2; 3]%N in
+  forallb (fun vb => forallb (fun vc => forallb (fun vt => forallb (fun vm =>
+    let tab := [1; vb; vc; 1; 1; vt; vm]%N in
+    forallb (fun what => forallb (fun usef =>
+      forallb (fun cur =>
+        let w := {| sw_root := 1; sw_what := what; sw_usef := usef; sw_cur := cur |} in
+        let mw := {| mw_root := 1; mw_what := what; mw_usef := usef; mw_cur := cur |} in
+        if in_view (view_verdict tab what usef) ex_f_cert 1 cur then
+          forallb (fun m => opt_eqb (sp_w_target_at tab ex_f_cert w 1 m) (mw_target fx_repaired tab ex_f_cert mw m)) moves
+        else true) [1; 2; 3; 4; 5; 6]) [true; false]) [65535; 1; 4; 133]%N) vs) vs) vs) vs.
+Example T14_walker_sample : walker_sample_ok = true.
+Proof. vm_compute. reflexivity. Qed.
